@@ -356,7 +356,7 @@ def real_raw(lang, nodes, data):
             warnings.simplefilter('ignore')
             tmpl = cls(src, lookup='lenient')
     except Exception as e:   # noqa
-        return ['invalid', type(e).__name__]
+        return ['err', type(e).__name__]
     try:
         with warnings.catch_warnings():
             warnings.simplefilter('ignore')
@@ -567,7 +567,7 @@ def prepared_model(cases):
         out.append(['ok', model_stream(v)])
     return out
 
-ERRMAP = {'TypeError': 'type', 'IndexError': 'index', 'KeyError': 'key', 'UndefinedError': 'undefined',
+ERRMAP = {'TemplateSyntaxError': 'syntax', 'BadDirectiveError': 'syntax', 'TypeError': 'type', 'IndexError': 'index', 'KeyError': 'key', 'UndefinedError': 'undefined',
           'TemplateRuntimeError': 'runtime', 'AttributeError': 'attribute', 'ValueError': 'value',
           'RuntimeError': 'genstop'}
 
